@@ -61,7 +61,7 @@ theorem reservePod_good {s : State} {n : Nat} {p : PodObj} (h : Good s) (hp : 0 
         have h2 := updPodUsed_mid (id := p.id) none (some p) h1 hq1 (by simpa using hmax)
           (by simp [hpa]) (by simp only [reqOf, npOf]; constructor <;> (try split) <;> omega)
         apply mid_switch (n := n)
-        refine mid_cast h2 (by simp [gAsg]) (by simp [w, gAsg]) ?_ ?_
+        refine mid_cast h2 (by have : (gAsg true e).req = e.req := rfl; omega) (by have : w (fun p => p.np) (gAsg true e) = w (fun p => p.np) e := rfl; omega) ?_ ?_
         · simp [w, gAsg, hasg, reqOf, hreq]
         · simp only [w, gAsg, hasg, npOf, hreq, hnp]; simp
 
@@ -133,7 +133,7 @@ theorem unreservePod_good {s : State} {n : Nat} {p : PodObj} (h : Good s) (hp : 
         have he1 : getPod q1.pods p.id = some e := by rw [hpods1]; exact he
         have h2 := updEntry_mid (gAsg false) hg (by simpa [gAsg, hreq] using hp) h1 hq1 he1
         apply mid_switch (n := n)
-        refine mid_cast h2 (by simp [gAsg]) (by simp [w, gAsg]) ?_ ?_
+        refine mid_cast h2 (by have : (gAsg false e).req = e.req := rfl; omega) (by have : w (fun p => p.np) (gAsg false e) = w (fun p => p.np) e := rfl; omega) ?_ ?_
         · simp [w, gAsg, hasg, reqOf, hreq]
         · simp only [w, gAsg, hasg, npOf, hreq, hnp]; simp
 
